@@ -1019,6 +1019,46 @@ Definition c18_session (toks : list (list N)) : list (list N) :=
   | _ => REJECT_TOK
   end.
 
+(* c18_dl: the response side of the HTTP/1.1 codec under a scripted transport (harness engine c18dl.rs).
+   in: ops head; ops = flat (kind, arg) pairs: 0 offer of arg bytes numbered on | 1 the loop runs with room for arg bytes
+   | 2 the listen future is dropped | 3 the response ends.  out: offers wire_lengths wire [end] *)
+From TT Require Import Model.Http1Download Generated.Http1Facts.
+Fixpoint dl_bytes (from : N) (n : nat) : list N :=
+  match n with O => [] | S k => (1 + from mod 251) :: dl_bytes (from + 1) k end.
+
+(* one run of the listen loop with room for k bytes: the message in flight first, then the queued one as far as the room goes;
+   a queued message is taken into flight even when there is no room left *)
+Definition dl_poll (keep : bool) (s : dl) (k : nat) : dl :=
+  let s1 := dstep keep s DTake in
+  let w1 := Nat.min k (length (flight s1)) in
+  let s2 := dstep keep s1 (DWrite w1) in
+  let s3 := dstep keep s2 DTake in
+  dstep keep s3 (DWrite (Nat.min (k - w1) (length (flight s3)))).
+
+Fixpoint dl_script (keep : bool) (ops : list N) (fuel : nat) (s : dl) (counter : N) (offers lens : list N) : list N * list N * dl * N :=
+  match fuel, ops with
+  | S f, kind :: arg :: rest =>
+    if kind =? 0 then
+      let s' := dstep keep s (DOffer (dl_bytes counter (N.to_nat arg))) in
+      let ok := match queued s with [] => 1 | _ => 0 end in
+      dl_script keep rest f s' (counter + arg) (offers ++ [ok]) (lens ++ [lenN (wire s')])
+    else if kind =? 1 then
+      let s' := dl_poll keep s (N.to_nat arg) in dl_script keep rest f s' counter offers (lens ++ [lenN (wire s')])
+    else if kind =? 2 then
+      let s' := dstep keep s DDrop in dl_script keep rest f s' counter offers (lens ++ [lenN (wire s')])
+    else
+      let s' := dstep keep s DClose in (offers, lens ++ [lenN (wire s')], s', 1)
+  | _, _ => (offers, lens, s, 0)
+  end.
+
+Definition c18_dl (toks : list (list N)) : list (list N) :=
+  match toks with
+  | ops :: head :: _ =>
+    let '(offers, lens, s, e) := dl_script HTTP1_MESSAGE_IN_FLIGHT_KEPT ops (length ops) (dstep true dl0 (DOffer head)) 0 [] [] in
+    [offers; lens; wire s; [e]]
+  | _ => REJECT_TOK
+  end.
+
 (* ---------------- C16 ---------------- *)
 From Coq Require Import ZArith.
 From TT Require Import Model.Metrics Generated.MetricsFacts.
